@@ -6,7 +6,8 @@ the complete __cstl_bintree_erase, the red-black fix-up functions with their chi
 parameters, the loops of cstl_rbtree_insert / __cstl_rbtree_erase with the stack-local stand-in
 node, the public erase functions, the __cstl_bintree_foreach recursion) and the fixed theorems of
 lean/Cstl/TreeL/Tie2.lean (`model … = some r -> translation … = some r`, loops by induction on the
-fuel) are re-checked by the kernel against that regenerated module, with the axiom audit.
+fuel; the traversal: translation = functional `walk` on every memory representing a tree) are
+re-checked by the kernel against that regenerated module, with the axiom audit.
 
 `tie2_run(chk)` is `vlib.translator_tie` applied to this second translator: the translation goes to
 a scratch module GenTmp.TreeLC2, the import of the committed copy Cstl.Gen.TreeLC2 in Tie2.lean is
@@ -54,7 +55,12 @@ TIE2_TABLE = [
     ("rbFind_tie",          "cstl_rbtree_find",                             "btFind"),
     ("btErase_tie",         "cstl_bintree_erase",                           "btErase"),
     ("rbErase_tie",         "cstl_rbtree_erase",                            "rbErase"),
+    ("foreach_refines",     "__cstl_bintree_foreach (recursion, callback)", "Cstl.Tree.walk on every memory that represents a tree"),
+    ("foreach_root_refines", "__cstl_bintree_foreach from bt->root",        "Cstl.Tree.foreach"),
 ]
+
+# Lean modules Tie2.lean imports besides the generated one (must be built before the scratch check)
+LEAN_DEPS = ["Cstl.TreeL.Model", "Cstl.TreeL.Lemmas", "Cstl.Tree.Events"]
 
 
 def _tie2_theorems():
@@ -96,10 +102,10 @@ def tie2_run(chk, theorems=None):
     Returns False if the model library could not be built."""
     import vlib
     _register()
-    ok, out = vlib.lake_build(["Cstl.TreeL.Model"])
+    ok, out = vlib.lake_build(LEAN_DEPS)
     if not ok:
         errs = [l for l in out.split("\n") if "error" in l][:5]
-        chk.build_problems.append(("lake build Cstl.TreeL.Model", " | ".join(errs) or out[-500:]))
+        chk.build_problems.append(("lake build %s" % " ".join(LEAN_DEPS), " | ".join(errs) or out[-500:]))
         return False
     for h in vlib.grep_forbidden([TIE2_MODULE]):
         if h not in chk.forbidden:
